@@ -16,7 +16,9 @@ Mixes == { <<"fall", "fall", "fall">>, <<"fall", "term", "fall", "rej">>, <<"eat
            \* "subterm": the same subroute instance hands the connection back, a later route of the outer list consumes it
            <<"subterm", "subfall", "subfall", "subterm">>, <<"subfall", "subterm", "subfall">>,
            \* "thrfall": a matched route whose handler is the real throttle handler, then fall-through: the consumer reads through it
-           <<"thrfall", "fall", "thrfall">> }
+           <<"thrfall", "fall", "thrfall">>,
+           \* "ppfall": the stream begins with a PROXY header that the real proxy_protocol handler strips, then fall-through
+           <<"wrapfall", "ppfall", "fall", "ppfall">>, <<"ppfall", "ppfall">> }
 Grid == [mix : Mixes, consumer : {"fast", "slow", "absent"}, procs : {1, 2, 16},
          slen : {0, 5, 300, 2048, 5000, 20000}, close : {"end", "early", "earlylate"}, pace : {0, 1}]
 \* "earlylate": closed early, the underlying listener's Accept learns of it 300 ms later (a listener closed by way of
